@@ -78,7 +78,7 @@ def inexact_tab(ops, width, indent=0):
 
 
 class World(object):
-    def __init__(self, ansi, width, indent=0):
+    def __init__(self, ansi, width, indent=0, capable=False):
         from clikit.api.io import Output
         from clikit.formatter import AnsiFormatter, PlainFormatter
         from clikit.io.output_stream import BufferedOutputStream
@@ -87,6 +87,14 @@ class World(object):
         self.width = width
         self.ansi = ansi
         self.stream = BufferedOutputStream()
+        if capable:
+            # a stream that claims ANSI support (a terminal); with a formatter that disables ANSI the output is
+            # still one "without ANSI support"
+            class CapableStream(BufferedOutputStream):
+                def supports_ansi(self):
+                    return True
+
+            self.stream = CapableStream()
         self.out = Output(self.stream, AnsiFormatter(forced=True) if ansi else PlainFormatter())
         self.indent = indent
         if indent:
@@ -160,8 +168,8 @@ def run_sequence(ctx, part, case, by_construction=False):
     width = case.get("width", WIDTH)
     indent = case.get("indent", 0)
     nt = False
-    for ansi in (True, False):
-        w = World(ansi, width, indent)
+    for ansi, capable in ((True, False), (False, False), (False, True)):
+        w = World(ansi, width, indent, capable)
         for i, op in enumerate(ops):
             try:
                 applied = w.apply(op)
